@@ -179,7 +179,7 @@ func run(c *core.Ctx) {
 	c.Assume("events are built with pipeline.VerifNewEvent + Root.DecodeBytes (the kinds a real split produces), not by a running pipeline")
 	c.Assume("Kafka framing is observed at the plugin's KafkaClient interface (bytes copied at ProduceSync time), not on the wire")
 
-	perPlugin := c.N(360, 4000)
+	perPlugin := c.N(300, 4000)
 	chunk := c.N(12, 40)
 	var jobs []job
 	for _, p := range pluginNames {
